@@ -92,3 +92,6 @@ func YieldAtDB(on bool) {}
 
 // TempFile: a readable file with the given content; returns its name.
 func TempFile(content string) string { return "" }
+
+// LockModel: sync.Mutex / sync.RWMutex block and are scheduling points (engine only; see intrinsics.go).
+func LockModel(on bool) {}
